@@ -26,6 +26,8 @@ type Program struct {
 	mutGlobals map[*types.Var]bool
 	globalAlias map[*types.Var]*types.Var
 	globalFresh map[*types.Var]bool
+	globalLen   map[*types.Var]int64
+	nonZeroGlobals map[*types.Var]bool
 }
 
 // mutableGlobal: is the package-level variable assigned anywhere outside package initialisation?
@@ -37,6 +39,9 @@ func (p *Program) mutableGlobal(v *types.Var) bool {
 		scan = func(f *ssa.Function) {
 			for _, b := range f.Blocks {
 				for _, ins := range b.Instrs {
+					if _, isDbg := ins.(*ssa.DebugRef); isDbg {
+						continue
+					}
 					if st, ok := ins.(*ssa.Store); ok {
 						if g, ok := st.Addr.(*ssa.Global); ok {
 							if gv, ok := g.Object().(*types.Var); ok {
@@ -227,6 +232,7 @@ func (p *Program) globalInit(v *types.Var) (fresh bool, alias *types.Var) {
 	if p.globalAlias == nil {
 		p.globalAlias = map[*types.Var]*types.Var{}
 		p.globalFresh = map[*types.Var]bool{}
+		p.globalLen = map[*types.Var]int64{}
 		for _, sp := range p.ByPkg {
 			init := sp.Func("init")
 			if init == nil {
@@ -254,6 +260,15 @@ func (p *Program) globalInit(v *types.Var) (fresh bool, alias *types.Var) {
 								p.globalFresh[gv] = true
 							}
 						}
+					case *ssa.Slice:
+						// []T{...} literal: a slice of a new [N]T with default bounds
+						if x.Low == nil && x.High == nil && x.Max == nil {
+							if pt, ok := x.X.Type().Underlying().(*types.Pointer); ok {
+								if at, ok := pt.Elem().Underlying().(*types.Array); ok {
+									p.globalLen[gv] = at.Len()
+								}
+							}
+						}
 					case *ssa.UnOp:
 						if h, ok := x.X.(*ssa.Global); ok {
 							if hv, ok := h.Object().(*types.Var); ok {
@@ -266,4 +281,41 @@ func (p *Program) globalInit(v *types.Var) (fresh bool, alias *types.Var) {
 		}
 	}
 	return p.globalFresh[v], p.globalAlias[v]
+}
+
+// zeroGlobal: a package-level variable that is only ever read as a whole (never stored to, no address or field
+// address taken, in any function including the package initialiser): it keeps its zero value.
+func (p *Program) zeroGlobal(v *types.Var) bool {
+	if p.nonZeroGlobals == nil {
+		p.nonZeroGlobals = map[*types.Var]bool{}
+		for _, f := range p.Funcs {
+			for _, b := range f.Blocks {
+				for _, ins := range b.Instrs {
+					if _, isDbg := ins.(*ssa.DebugRef); isDbg {
+						continue
+					}
+					for _, op := range ins.Operands(nil) {
+						g, ok := (*op).(*ssa.Global)
+						if !ok {
+							continue
+						}
+						if u, isLoad := ins.(*ssa.UnOp); isLoad && u.Op == token.MUL {
+							continue
+						}
+						if gv, ok := g.Object().(*types.Var); ok {
+							p.nonZeroGlobals[gv] = true
+						}
+					}
+				}
+			}
+		}
+	}
+	return !p.nonZeroGlobals[v]
+}
+
+// globalInitLen: length of a package-level slice initialised with a composite literal (ok == false otherwise).
+func (p *Program) globalInitLen(v *types.Var) (int64, bool) {
+	p.globalInit(v)
+	n, ok := p.globalLen[v]
+	return n, ok
 }
